@@ -35,6 +35,8 @@ type Region struct {
 	Published []string
 	// Hosted lists every server index that ever hosted (served) the region.
 	Hosted []int
+	// MetaHidden: hbase:meta has (for the moment) no row for the region: a hole
+	MetaHidden bool
 }
 
 // Contains reports start <= key < stop.
@@ -133,7 +135,7 @@ func (c *Cluster) Violate(format string, a ...any) {
 // ServerByAddr returns the server with that address, or nil.
 func (c *Cluster) ServerByAddr(addr string) *Server {
 	for _, s := range c.Servers {
-		if s.Addr == addr {
+		if strings.EqualFold(s.Addr, addr) { // host names are case-insensitive
 			return s
 		}
 	}
@@ -414,7 +416,7 @@ func (c *Cluster) tableRows(table string) (keys [][]byte, cmp func(a, b []byte) 
 	if table == "hbase:meta" {
 		var rows []metaRow
 		for _, r := range c.Regions {
-			if r.State != Gone {
+			if r.State != Gone && !r.MetaHidden {
 				rows = append(rows, metaRow{key: []byte(r.Name), reg: r})
 			}
 		}
